@@ -1,12 +1,12 @@
 SPECIFICATION Spec
 CONSTANTS
-  Mode = "matrix"
-  ProtoSets <- QProtoSets
+  Mode = "reject"
+  ProtoSets <- TProtoSets
   CodecSeqs <- QCodecSeqs
   CompSeqs <- QCompSeqs
   ClientForms <- QForms
   ClientCodecs <- QCodecs
-  ClientComps <- QComps
+  ClientComps <- NoComps
   Methods <- QMethods
   MaxMsgs = 2
   EndCodes <- OkOnly
